@@ -90,30 +90,21 @@ Proof. exact unmapped_ff_ignored. Qed.
 Print Assumptions C06_unmapped_ff_ignored.
 
 (* ---- registers ---- *)
-(* The register table of the specification: TAC (07|F8), TMA, SCY, SCX, LYC, BGP, WY, WX, LCDC (all eight bits, incl.
-   the enable bit), DMA, IE (FF|00), OBP0, OBP1 (FF|00): after any history the register reads
-   (last byte written & writable) | ones.  As stated this is FALSE of the code for OBP0 / OBP1 (known finding): *)
-Theorem C06_register_masks_refuted : ~ register_masks_statement.
-Proof. exact register_masks_refuted. Qed.
-Print Assumptions C06_register_masks_refuted.
-
-(* ... and holds for every register of the table, every state, every history and every written byte outside the
-   signature of the finding (a write to OBP0 / OBP1 whose two low bits are not both 0) *)
-Theorem C06_register_masks_partial : forall r (s : sys) (h : list bop) (s' : sys) (v wm ones : N),
+(* The register table of the specification (AddrSpec.reg_masks): TAC (07|F8), TMA, SCY, SCX, LYC, BGP, OBP0, OBP1, WY,
+   WX, LCDC (all eight bits, incl. the enable bit), DMA, IE (FF|00): after ANY history from ANY state the register
+   reads (last byte written & writable) | ones.  No exception: OBP0 / OBP1 read back all eight bits since the
+   repair "fix: OBP0 and OBP1 read back all eight bits" (before it bits 1-0 read 0; corpus/C06/obp_low_bits.txt). *)
+Theorem C06_register_masks : forall r (s : sys) (h : list bop) (s' : sys) (v wm ones : N),
   stable_reg r = true -> reg_masks r = Some (wm, ones) ->
-  (r = R_OBP0 \/ r = R_OBP1 -> N.land v 3 = 0) ->
-  forallb wf_bop h = true -> bus_run s h = Ok s' -> last_written (reg_addr r) h = Some v -> v < 256 ->
-  peek s' (reg_addr r) = Ok (N.lor (N.land v wm) ones).
-Proof. exact register_masks_partial. Qed.
-Print Assumptions C06_register_masks_partial.
-
-(* what the code does for all of them, OBP0 / OBP1 included (their mask is FC): *)
-Theorem C06_register_masks_impl : forall r (s : sys) (h : list bop) (s' : sys) (v wm ones : N),
-  stable_reg r = true -> impl_masks r = Some (wm, ones) ->
   forallb wf_bop h = true -> bus_run s h = Ok s' -> last_written (reg_addr r) h = Some v -> v < 256 ->
   peek s' (reg_addr r) = Ok (N.lor (N.land v wm) ones).
 Proof. exact register_masks. Qed.
-Print Assumptions C06_register_masks_impl.
+Print Assumptions C06_register_masks.
+
+(* the table is not vacuous: it has an entry for every register the theorem ranges over *)
+Example C06_register_table_covers :
+  forallb (fun r => negb (stable_reg r) || match reg_masks r with Some _ => true | None => false end) all_regs = true.
+Proof. reflexivity. Qed.
 
 (* a register never written keeps reading what it read *)
 Theorem C06_register_unwritten : forall r (s : sys) (h : list bop) (s' : sys),
